@@ -28,7 +28,7 @@ class P(vlib.Prop):
             "25% free, 15% with dangling uses), pipelines fed or drained by connectors only, 8% invalid configurations "
             "(duplicated processor, no receivers, no exporters).  The real graph.Build runs with instrumented "
             "factories (connectors from xconnector.NewFactory or from the stable connector.NewFactory; plain components from "
-            "the x* or the stable NewFactory constructors), then StartAll, then one fresh and one read-only tagged payload is "
+            "the x* or the stable NewFactory constructors), then StartAll, then one fresh full, one read-only childless and one empty (no resource entries) tagged payload is "
             "injected at every receiver instance (mutating processors/connectors, some mutating exporters), then a fault pass in "
             "which each processor/exporter/connector refuses with probability 0.2; component and pipeline names follow one of "
             "four schemes (decimal, case-only differences, long common prefix, non-ASCII + long suffix); compared with "
@@ -81,7 +81,7 @@ class P(vlib.Prop):
             "defines": "Generated/C09StabilityTable.v: C09StabilityTable (%d rows)" % stats.get("stability_rows", 0),
             "params": None})
 
-    CLAUSES = {1: "routing", 2: "routing-readonly-payload", 3: "instances", 4: "rejected-nothing-started", 5: "started-once"}
+    CLAUSES = {1: "routing", 2: "routing-readonly-payload", 3: "instances", 4: "rejected-nothing-started", 5: "started-once", 6: "routing-empty-payload"}
 
     def extra_checks(self, ctx):
         """Failing-input search (DESIGN 2.5).
